@@ -6,6 +6,7 @@ import (
 	"testing"
 
 	"github.com/dtn7/dtn7-go/pkg/bpv7"
+	"github.com/dtn7/dtn7-go/pkg/storage"
 	vk "github.com/dtn7/dtn7-go/pkg/verifkit"
 	"pgregory.net/rapid"
 )
@@ -189,4 +190,169 @@ func TestVerifC07Node(t *testing.T) {
 		}
 		return cs
 	}, c07NodeBody)
+}
+
+// ---- an agent registers after the bundle arrived; administrative records for local clients -------------
+
+type c07Late struct {
+	Algo      string `json:"algo"`
+	Foreign   bool   `json:"foreign"`    // the endpoint carries another node name (else the node's own)
+	Peer      bool   `json:"peer"`       // a relay is connected from the start
+	Report    int    `json:"report"`     // 0: data bundle; 1..4: a status report (received/forwarded/delivered/deleted) about a bundle this node does not hold
+	LatePeer  bool   `json:"late_peer"`  // another relay appears after the delivery
+	AgentGone bool   `json:"agent_gone"` // the agent leaves again before that
+	Early     bool   `json:"early"`      // the agent is registered BEFORE the bundle arrives (then the hand-over is owed)
+}
+
+func TestVerifC07LateRegistration(t *testing.T) {
+	u := vk.Unit{Property: "C07", Name: "c07.late-registration",
+		Rule: "exhaustive product: algorithm (epidemic, spray, prophet, dtlsr) x endpoint under the node's name or under another node name x relay connected or not x data bundle or a status report (4 kinds) about a bundle the node does not hold x a relay appearing afterwards x the agent leaving before that. The bundle arrives either while an agent is registered for its destination (then it must be handed over exactly once, status reports included) or while NOBODY is registered and waits; in the latter case an agent registers for exactly that endpoint afterwards and retry ticks run. Oracle: the agent receives the bundle at most once (not again on later ticks); once handed over, the bundle is neither pending nor transmitted to a relay that appears later; a bundle for a registered endpoint (status reports included) is handed over, not dropped; every case non-trivial; distinct by tuple"}
+	vk.Enumerate(t, u, true, func(yield func(c07Late) bool) {
+		i := 0
+		bools := []bool{false, true}
+		for _, algo := range []string{"epidemic", "spray", "prophet", "dtlsr"} {
+			for _, foreign := range bools {
+				for _, peer := range bools {
+					for rep := 0; rep <= 4; rep++ {
+						for _, lp := range bools {
+							for _, ag := range bools {
+								for _, early := range bools {
+									i++
+									if !vk.ShardOwns(i) {
+										continue
+									}
+									if !yield(c07Late{algo, foreign, peer, rep, lp, ag, early}) {
+										return
+									}
+								}
+							}
+						}
+					}
+				}
+			}
+		}
+	}, func(c *vk.Ctx, cs c07Late) {
+		c.NonTrivial()
+		s := vfNewSim(c, vfConf(cs.Algo))
+		defer s.close()
+		ep := vfNodeName + "late"
+		if cs.Foreign {
+			ep = "dtn://service/inbox"
+		}
+		if cs.Peer {
+			s.addPeer("p0")
+		}
+		payload := []byte("c07 late registration")
+		var b bpv7.Bundle
+		var err error
+		if cs.Report == 0 {
+			b, err = bpv7.Builder().CRC(bpv7.CRC32).Source("dtn://remote/app").Destination(ep).CreationTimestampNow().Lifetime("1h").
+				BundleCtrlFlags(0).PayloadBlock(payload).Build()
+		} else {
+			ref, e2 := bpv7.Builder().CRC(bpv7.CRC32).Source(ep).Destination("dtn://faraway/inbox").ReportTo(ep).CreationTimestampNow().Lifetime("1h").
+				BundleCtrlFlags(bpv7.StatusRequestDelivery).PayloadBlock([]byte("referenced, not held by this node")).Build()
+			if e2 != nil {
+				s.failf("c07.harness", "bundle: %v", e2)
+			}
+			ref.PrimaryBlock.CreationTimestamp[1] = 4242
+			sr := bpv7.NewStatusReport(ref, bpv7.StatusInformationPos(cs.Report-1), bpv7.NoInformation, bpv7.DtnTimeNow())
+			ar, e3 := bpv7.AdministrativeRecordToCbor(sr)
+			if e3 != nil {
+				s.failf("c07.harness", "record: %v", e3)
+			}
+			b, err = bpv7.Builder().CRC(bpv7.CRC32).BundleCtrlFlags(bpv7.AdministrativeRecordPayload).Source("dtn://faraway/").Destination(ep).
+				CreationTimestampNow().Lifetime("1h").Canonical(ar).Build()
+			payload = vfPayloadOf(&b)
+		}
+		if err != nil {
+			s.failf("c07.harness", "bundle: %v", err)
+		}
+		var ag *vfAgent
+		if cs.Early {
+			ag = vfNewAgent(bpv7.MustNewEndpointID(ep))
+			s.logf("an agent registers for %s", ep)
+			s.core.RegisterApplicationAgent(ag)
+		}
+		s.logf("bundle for %s arrives (report kind %d), agent registered: %v", ep, cs.Report, cs.Early)
+		s.receive(b)
+		s.tickPending()
+		if !cs.Early && !s.storeHas(b.ID()) {
+			if cs.Peer && cs.Foreign {
+				// a bundle for an endpoint of another node name is in transit as long as nobody registered it: the
+				// algorithm may have handed it to the relay and let go of it
+				c.Class("in transit, handed to the relay before anybody registered")
+				return
+			}
+			s.failf("c07.released-without-handover", "the bundle for %s (no agent registered) is no longer in the store although nobody received it", ep)
+		}
+		if !cs.Early {
+			ag = vfNewAgent(bpv7.MustNewEndpointID(ep))
+			s.logf("an agent registers for %s", ep)
+			s.core.RegisterApplicationAgent(ag)
+		}
+		gone := false
+		count := func() int {
+			if !gone {
+				ag.flush()
+			}
+			n := 0
+			for _, g := range ag.received() {
+				if bytes.Equal(vfPayloadOf(&g), payload) {
+					n++
+				}
+			}
+			return n
+		}
+		for k := 0; k < 3; k++ {
+			s.logf("retry tick")
+			s.tickPending()
+			s.barrier(s.inlet)
+			if n := count(); k >= 0 && n > 1 {
+				s.failf("c07.duplicate-delivery", "after retry tick %d the agent registered for %s has received the bundle %d times (one accepted copy)", k+1, ep, n)
+			}
+		}
+		n := count()
+		if cs.Early && n != 1 {
+			s.failf("c07.not-delivered", "an agent is registered for %s, but it received the bundle addressed to this endpoint %d times (report kind %d)", ep, n, cs.Report)
+		}
+		// (whether a bundle that arrived before anybody registered is delivered later is not promised by the
+		// statement: only that it is delivered at most once, and is done with afterwards)
+		c.Classf("registered before arrival: %v, delivered: %v", cs.Early, n == 1)
+		if n == 0 {
+			return
+		}
+		for _, bi := range mustPendingSim(s) {
+			if bi.BId.String() == b.ID().Scrub().String() {
+				s.failf("c07.still-pending", "the bundle was handed to the agent registered for %s but is still marked for retry in the store", ep)
+			}
+		}
+		before := s.nSends()
+		if cs.AgentGone {
+			s.logf("the agent leaves")
+			gone = true
+			close(ag.sender)
+			sleepMs(2)
+		}
+		if cs.LatePeer {
+			s.logf("relay p1 appears")
+			s.addPeer("p1")
+			s.tickPending()
+			for _, x := range s.sendsSince(before) {
+				if x.ID == b.ID().String() {
+					s.failf("c07.sent-to-peer", "the bundle had been handed to the agent registered for %s; afterwards it was transmitted to peer %s", ep, x.Peer)
+				}
+			}
+		}
+		if n := count(); !cs.AgentGone && n != 1 {
+			s.failf("c07.duplicate-delivery", "at the end the agent has received the bundle %d times", n)
+		}
+	})
+}
+
+func mustPendingSim(s *vfSim) []storage.BundleItem {
+	bis, err := s.core.store.QueryPending()
+	if err != nil {
+		s.failf("sim.harness", "QueryPending: %v", err)
+	}
+	return bis
 }
